@@ -155,7 +155,10 @@ func (r *synReport) render() string {
 	return b.String()
 }
 
-var symPool = []string{"main.main", "runtime.main", "runtime.goexit", "golang.org/x/tools/gopls/internal/cache.(*Snapshot).load", "pkg.(*T[...]).method", "a.b.c", "runtime.sigpanic", "runtime.sigpanic2", "xruntime.sigpanic", "runtime.gopanic", "main.f.func1", "ünï.code"}
+var symPool = []string{"main.main", "runtime.main", "runtime.goexit", "golang.org/x/tools/gopls/internal/cache.(*Snapshot).load", "pkg.(*T[...]).method", "a.b.c", "runtime.sigpanic", "runtime.sigpanic2", "xruntime.sigpanic", "runtime.gopanic", "main.f.func1", "ünï.code",
+	// symbol text that begins with, or is nothing but, punctuation the parser looks for
+	// (no blanks: a Go symbol has none, and lines like "created by x" are the traceback's own markers)
+	"(*T).m", "(", "()", ".", ".f", "pc=0x1234"}
 
 func genReport(r *verifrt.Rand, canary string) (*synReport, []uint64, bool) {
 	rep := &synReport{}
